@@ -9,7 +9,7 @@ def J(scn, bound, deadline=60, **kw):
 
 PLANS = {
     "C01": {
-        "quick": [J("pubflow", "p=1,f=1,s=1", 30), J("pubflow", "f=2", 60)],
+        "quick": [J("pubflow", "p=1,f=1,s=1", 30), J("pubflow", "f=2", 60), J("pubflowvol", "f=2,s=1", 60)],
         "thorough": [J("pubflow", "p=2,f=2,s=2", 900)],
     },
 }
@@ -20,11 +20,11 @@ PLANS["C02"] = {
 }
 
 PLANS["C03"] = {
-    "quick": [J("qos2out", "f=1,c=1", 60), J("qos2out", "f=2", 60)],
+    "quick": [J("qos2out", "f=1,c=1", 60), J("qos2out", "f=2", 60), J("qos2out", "c=2,s=1", 60)],
     "thorough": [J("qos2out", "f=3,c=2,p=1", 900)],
 }
 PLANS["C05"] = {
-    "quick": [J("puborder", "p=1,f=1,s=1", 90), J("restartwrap", "c=1,f=1", 40)],
+    "quick": [J("puborder", "p=1,f=1,s=1", 90), J("restartwrap", "c=1,f=1", 40), J("pubflowvol", "f=2,s=1", 60)],
     "thorough": [J("puborder", "p=3,f=2,s=2", 900), J("restartwrap", "c=2,f=1,p=1", 400)],
 }
 
@@ -41,8 +41,8 @@ PLANS["C11"] = {
     "thorough": [J("reqresp", "p=3,f=2,s=2,sel=1", 900), J("c11-idwrap", "thorough", 120, test="TestE3", shards=1)],
 }
 PLANS["C12"] = {
-    "quick": [J("shutdown1", "p=1,f=1,s=1", 60), J("shutdown1lazy", "p=1,f=1", 40), J("shutdown2", "p=1,f=1,sel=1", 60)],
-    "thorough": [J("shutdown1", "p=2,f=1,s=2", 300), J("shutdown1lazy", "p=2,f=1,s=1", 300), J("shutdown2", "p=2,f=1,s=2,sel=1", 300), J("shutdown3", "p=2,f=1,s=2,sel=1", 300)],
+    "quick": [J("shutdown1", "p=1,f=1,s=1", 60), J("shutdown1lazy", "p=1,f=1", 40), J("shutdownbig", "p=1,s=2", 40), J("shutdown2", "p=1,f=1,sel=1", 60)],
+    "thorough": [J("shutdown1", "p=2,f=1,s=2", 300), J("shutdown1lazy", "p=2,f=1,s=1", 300), J("shutdownbig", "p=2,s=2,f=1", 300), J("shutdown2", "p=2,f=1,s=2,sel=1", 300), J("shutdown3", "p=2,f=1,s=2,sel=1", 300)],
 }
 
 PLANS["C04"] = {
